@@ -70,6 +70,7 @@ def run(ctx):
     quick = ctx.quick()
     n_inputs = 40 if quick else 500
     n_plans = 5 if quick else 8
+    n_fix = 6 if quick else 60
     max_src = 8 if quick else 32
     # ---- A
     vlib.proof_stage(ctx, "Props/C01.v", ["coord"], extra_targets=["Corr/C01.vo"])
@@ -80,6 +81,10 @@ def run(ctx):
     rng = ctx.rng
     scratch = vlib.scratch_dir(PROP)
     inputs = []
+    for k, inp in enumerate(mu.corpus_inputs(PROP)):          # corpus first
+        mu.write_input(inp, os.path.join(scratch, "corpus%02d" % k), k)
+        inputs.append(inp)
+    n_corpus = len(inputs)
     for k in range(n_inputs):
         r = rng.random()
         if r < 0.15:
@@ -95,6 +100,12 @@ def run(ctx):
             q = permuted(rng, inp)
             if q:
                 inputs.append(q)
+    fams = mu.fixture_families()
+    if not fams:
+        ctx.note("no utmp/evtx/journal fixtures found under %s/logs: only text sources are exercised" % vlib.REPO)
+    n_gen = len(inputs)
+    for k in range(n_fix if fams else 0):
+        inputs.append(mu.fixture_input(rng, fams))
     jobs, meta = [], []
     for ii, inp in enumerate(inputs):
         for pi, plan in enumerate(plans_for(rng, inp, n_plans)):
@@ -104,56 +115,70 @@ def run(ctx):
     results = mu.run_many(jobs, workers=8)
 
     # ---- C: stdout vs spec
-    exp = [mu.expected_stdout(inp) for inp in inputs]
+    exp = [mu.expected_stdout(inp) if not inp.get("fixture") else None for inp in inputs]
     spec_cases, fail_n = [], 0
     bytes_only = 0
+    unattributed = 0
     for ri, (ii, res) in enumerate(zip(meta, results)):
         inp = inputs[ii]
-        exp_bytes, exp_order = exp[ii]
-        obs = mu.observed_order(inp, res["stdout"])
-        spec_cases.append(mu.coq_case(mu.instants(inp), obs))
-        res["obs"] = obs
+        if inp.get("fixture"):
+            pr = mu.parse_fixture(inp, res["stdout"]) if res["rc"] == 0 else None
+            if pr is None and res["rc"] == 0:
+                unattributed += 1
+                pr = ([[] for _ in inp["paths"]], [(99, 0)])
+            elif pr is None:
+                pr = ([[] for _ in inp["paths"]], [])
+            res["srcs"], res["obs"] = pr
+            exp_order, exp_bytes = mu.kway_merge(res["srcs"]), None
+            case = lambda: dict(mu.describe(inp), plan=res["plan"])
+        else:
+            exp_bytes, exp_order = exp[ii]
+            res["srcs"], res["obs"] = mu.instants(inp), mu.observed_order(inp, res["stdout"])
+            case = None
+        spec_cases.append(mu.coq_case(res["srcs"], res["obs"]))
+
+        def mkcase():
+            nonlocal fail_n
+            fail_n += 1
+            return case() if case else save_failure(ctx, inp, res, exp_bytes, fail_n)
         if res["rc"] == 124:
-            fail_n += 1
-            ctx.failure(save_failure(ctx, inp, res, exp_bytes, fail_n), "terminates", "no exit within 60 s")
+            ctx.failure(mkcase(), "terminates", "no exit within 60 s")
         elif res["rc"] != 0:
-            fail_n += 1
-            ctx.failure(save_failure(ctx, inp, res, exp_bytes, fail_n), "exit status 0",
+            ctx.failure(mkcase(), "exit status 0",
                         "exit status %d; stderr %r" % (res["rc"], res["stderr"][-300:].decode("utf-8", "replace")))
-        elif obs != exp_order:
-            fail_n += 1
-            ctx.failure(save_failure(ctx, inp, res, exp_bytes, fail_n),
-                        dict(order_src_pos=exp_order[:200]), dict(order_src_pos=obs[:200]))
-        elif res["stdout"] != exp_bytes:
+        elif res["obs"] != exp_order:
+            ctx.failure(mkcase(), dict(order_src_pos=exp_order[:200]), dict(order_src_pos=res["obs"][:200]))
+        elif exp_bytes is not None and res["stdout"] != exp_bytes:
             bytes_only += 1
             if bytes_only == 1:
                 ctx.obligation_broken("oracle", "stdout bytes differ from the rendering although the message order agrees",
                                       json.dumps(dict(case=mu.describe(inp), plan=res["plan"],
                                                       got=res["stdout"][:400].decode("utf-8", "replace"),
                                                       expected=exp_bytes[:400].decode("utf-8", "replace"))))
+    if unattributed:
+        ctx.obligation_broken("oracle", "%d fixture runs whose output lines could not be attributed to a source and instant" % unattributed, "")
     okc, bad, logc = mu.eval_cases(os.path.join(vlib.CACHE, "cases", PROP, "spec"), IMPORTS, "order_bad", spec_cases)
     if not okc:
         ctx.obligation_broken("spec-evaluation", "coqc on order cases", logc)
     spec_dis = 0
     for ri, code in bad.items():
         spec_dis += 1
-        ii = meta[ri]
         res = results[ri]
-        if res["obs"] == exp[ii][1]:
+        if res["rc"] == 0 and res["obs"] == mu.kway_merge(res["srcs"]):
             # python oracle says equal, Coq merge says different: the two specs disagree
             ctx.obligation_broken("oracle", "python k-way merge and Coq merge disagree",
-                                  json.dumps(dict(case=mu.describe(inputs[ii]), first_difference_at=code)))
+                                  json.dumps(dict(case=mu.describe(inputs[meta[ri]]), first_difference_at=code)))
         # otherwise already reported as a failure above
 
     # ---- B: trace vs model
     tr_cases, tr_idx = [], []
     for ri, (ii, res) in enumerate(zip(meta, results)):
-        if res["rc"] == 124:
+        if res["rc"] != 0:
             continue
         if res["trace"] is None:
             ctx.obligation_broken("correspondence", "no coordinator trace written (hook H1)", json.dumps(mu.describe(inputs[ii])))
             break
-        tr_cases.append(mu.coq_case(mu.instants(inputs[ii]), res["trace"]))
+        tr_cases.append(mu.coq_case(res["srcs"], res["trace"]))
         tr_idx.append(ri)
     okt, tbad, logt = mu.eval_cases(os.path.join(vlib.CACHE, "cases", PROP, "trace"), IMPORTS, "trace_bad 1%nat", tr_cases)
     if not okt:
@@ -166,32 +191,39 @@ def run(ctx):
                                               trace=results[ri]["trace"][:300], disagreements=len(tbad))))
 
     # ---- evidence
-    tie_info = [ties(inp) for inp in inputs]
+    gen_inputs = inputs[:n_gen]
+    tie_info = [ties(inp) for inp in gen_inputs]
     nontriv = set()
-    for ii, inp in enumerate(inputs):
+    for ii, inp in enumerate(gen_inputs):
         live = sum(1 for l in mu.instants(inp) if l)
         if live >= 2 and (tie_info[ii][0] > 0 or tie_info[ii][1] > 0):
             nontriv.add(json.dumps([mu.instants(inp), inp["opts"]]))
+    for inp in inputs[n_gen:]:
+        nontriv.add(json.dumps(inp["paths"]))
     hist_src, hist_kind = {}, {}
-    for inp in inputs:
+    for inp in gen_inputs:
         hist_src[len(inp["sources"])] = hist_src.get(len(inp["sources"]), 0) + 1
         for s in inp["sources"]:
             hist_kind[s["kind"] + "/" + s["container"]] = hist_kind.get(s["kind"] + "/" + s["container"], 0) + 1
+    fix_hist = {}
+    for inp in inputs[n_gen:]:
+        fix_hist[inp["family"]] = fix_hist.get(inp["family"], 0) + 1
     ctx.coverage.update(
         evaluations=len(results), distinct_nontrivial=len(nontriv),
-        rule="input = 1..%d generated text sources (ISO timestamps with microseconds and numeric UTC offsets; instants drawn from tie-heavy increments {0,1us,2us,999us,1ms,~1s,60s}; offsets per line or per file from {+00:00,+01:00,-05:30,+05:45,-08:00,+14:00,-12:00}; 0-2 continuation lines; plain/gz/xz; 15%% non-chronological sources; sources emptied by -a/-b; sources without any timestamp; argument order = random permutation of name order, 30%% re-run with another permutation, 10%% passed as a directory) x %d planned schedules; distinct_nontrivial counts DISTINCT inputs (by instants and options) with >= 2 non-empty sources and at least one cross- or intra-source tie" % (max_src, n_plans),
-        samples=[dict(mu.describe(inputs[i]), expected_order_head=exp[i][1][:12]) for i in (0, len(inputs) // 2, len(inputs) - 1)],
-        inputs=len(inputs), plans_per_input=n_plans, traces_validated_against_impl=len(tr_cases) - len(tbad),
+        rule="inputs = corpus/C01 (hand-picked ties) + generated: 1..%d text sources (ISO timestamps with microseconds and numeric UTC offsets; instants drawn from tie-heavy increments {0,1us,2us,999us,1ms,~1s,60s}; offsets per line or per file from {+00:00,+01:00,-05:30,+05:45,-08:00,+14:00,-12:00}; 0-2 continuation lines; plain/gz/xz; 15%% non-chronological sources; sources emptied by -a/-b; sources without any timestamp; argument order = random permutation of name order, 30%% re-run with another permutation, 10%% passed as a directory) + fixture inputs (2-6 utmp / evtx / journal files of /repo/logs in several compressed variants, i.e. identical instants in several sources; instants read back from s4's -u -d '%%s%%.9f' prefix); each input x %d planned schedules. distinct_nontrivial counts DISTINCT generated inputs (by instants and options) with >= 2 non-empty sources and at least one cross- or intra-source tie, plus distinct fixture file lists" % (max_src, n_plans),
+        samples=[dict(mu.describe(inputs[i]), expected_order_head=(exp[i][1][:12] if exp[i] else None)) for i in (0, n_corpus + 1, n_gen - 1, len(inputs) - 1)],
+        inputs=len(inputs), corpus_inputs=n_corpus, fixture_inputs=len(inputs) - n_gen, fixture_family_histogram=fix_hist,
+        plans_per_input=n_plans, traces_validated_against_impl=len(tr_cases) - len(tbad),
         trace_disagreements=len(tbad), spec_order_disagreements=spec_dis, stdout_byte_only_differences=bytes_only,
         sources_histogram=hist_src, source_kind_histogram=hist_kind,
         inputs_with_cross_source_ties=sum(1 for c, i in tie_info if c), inputs_with_intra_source_ties=sum(1 for c, i in tie_info if i),
-        inputs_with_emptied_sources=sum(1 for inp in inputs if inp["window"]),
-        inputs_as_directory=sum(1 for inp in inputs if inp["as_dir"]),
-        messages_total=sum(len(l) for inp in inputs for l in mu.instants(inp)),
+        inputs_with_emptied_sources=sum(1 for inp in gen_inputs if inp["window"]),
+        inputs_as_directory=sum(1 for inp in gen_inputs if inp["as_dir"]),
+        messages_total=sum(len(l) for ii in set(meta) for l in results[meta.index(ii)]["srcs"]),
         max_run_wall_s=round(max(r["wall"] for r in results), 3))
     ctx.assumptions += [
         "the generator's instant of a timestamp text (civil time minus offset) is what the text denotes (cross-checked against s4's own -u -d '%s%.9f' rendering in the option sets that include it; C04 is the property about this)",
-        "stdout lines are attributed to sources by the token sNNmPPPP the generator writes into every message and, with -n/-p, by the prepended name",
+        "stdout lines are attributed to sources by the token sNNmPPPP the generator writes into every message and, with -n/-p, by the prepended name; for utmp/evtx/journal fixtures by the prepended path, and their instants are the ones s4 prints (-u -d '%s%.9f'), i.e. the check there is that the print order is the merge of the instants s4 itself reports",
         "crossbeam-channel is FIFO per channel, send blocks only when full, select returns some ready channel (oracle contract of Model/Coord.v)",
         "PathId = argument position (all generated files are valid sources); for a directory argument PathId = sorted name order",
         "planned delays (S4_VERIF_PLAN) steer but do not enumerate the OS schedule; the theorems quantify over all schedules",
